@@ -8,6 +8,7 @@ import (
 	"context"
 	"fmt"
 	"io"
+	"strings"
 	"sync"
 	"sync/atomic"
 
@@ -16,6 +17,8 @@ import (
 	"github.com/prometheus/prometheus/model/labels"
 	"github.com/prometheus/prometheus/tsdb/chunkenc"
 	"google.golang.org/grpc"
+	"google.golang.org/grpc/codes"
+	"google.golang.org/grpc/status"
 
 	"verif/vsync"
 
@@ -139,13 +142,21 @@ type Entry struct {
 // instead of a frame (At = number of frames: instead of EOF), "hang" = the At-th Recv never delivers: it
 // blocks until the call's context is cancelled (by the proxy's frame timeout) and returns the context error,
 // as a gRPC stream does. "hang" is only meaningful with a response timeout and inside testing/synctest.
+// Kind is the kind of error VALUE the store's client produces (same alphabet as the E4 part, checks/c06):
+// "" = plain injected error and bare context errors (in-process client); "grpc" (healthy or hanging store) or
+// "grpc-canceled"/"grpc-deadline"/"grpc-unavailable" (open/recv fault: the injected error is that gRPC status)
+// = the store is reached through a real gRPC client, so a cancelled call is reported as
+// status.FromContextError(ctx.Err()) (code Canceled), not as the bare context error.
 type StoreSpec struct {
 	E     []Entry `json:"e"`
 	F     []int   `json:"f,omitempty"`
 	NoWRL bool    `json:"nowrl,omitempty"` // store cannot strip replica labels
 	Fault string  `json:"fault,omitempty"`
 	At    int     `json:"at,omitempty"`
+	Kind  string  `json:"kind,omitempty"`
 }
+
+func (s StoreSpec) grpcClient() bool { return s.Kind == "grpc" || strings.HasPrefix(s.Kind, "grpc-") }
 
 func (s StoreSpec) series(e Entry) *storepb.Series {
 	ser := &storepb.Series{Labels: labelpb.ZLabelsFromPromLabels(lset(e.L, e.R))}
@@ -207,7 +218,25 @@ func (c *fakeStore) Addr() (string, bool)               { return c.name, false }
 func (c *fakeStore) Matches([]*labels.Matcher) bool     { return true }
 
 func (c *fakeStore) errorf(what string) error {
-	return errors.Errorf("injected %s failure of %s", what, c.name)
+	switch c.spec.Kind {
+	case "":
+		return errors.Errorf("injected %s failure of %s", what, c.name)
+	case "grpc-canceled":
+		return status.Error(codes.Canceled, "context canceled")
+	case "grpc-deadline":
+		return status.Error(codes.DeadlineExceeded, "context deadline exceeded")
+	case "grpc-unavailable":
+		return status.Error(codes.Unavailable, "error reading from server: EOF")
+	}
+	panic("HARNESS-ERROR unknown error kind " + c.spec.Kind)
+}
+
+// ctxErr is how the store's client reports that the call was cancelled.
+func (c *fakeStore) ctxErr(ctx context.Context) error {
+	if c.spec.grpcClient() {
+		return status.FromContextError(ctx.Err()).Err()
+	}
+	return ctx.Err()
 }
 
 func (c *fakeStore) Series(ctx context.Context, _ *storepb.SeriesRequest, _ ...grpc.CallOption) (storepb.Store_SeriesClient, error) {
@@ -253,10 +282,10 @@ type stream struct {
 func (s *stream) Recv() (*storepb.SeriesResponse, error) {
 	// every Recv is a scheduling point: the store may be arbitrarily slow relative to everything else
 	vsync.Point("store-recv")
-	if err := s.ctx.Err(); err != nil {
+	if s.ctx.Err() != nil {
 		// the call was cancelled (frame timeout or request end): a gRPC stream returns the context error
 		s.owner.cancelled.Store(true)
-		return nil, err
+		return nil, s.owner.ctxErr(s.ctx)
 	}
 	if s.failAt == s.i {
 		return nil, s.err
@@ -264,7 +293,7 @@ func (s *stream) Recv() (*storepb.SeriesResponse, error) {
 	if s.hangAt == s.i {
 		vsync.Recv(s.ctx.Done()) // blocks until the proxy cancels the call
 		s.owner.cancelled.Store(true)
-		return nil, s.ctx.Err()
+		return nil, s.owner.ctxErr(s.ctx)
 	}
 	if s.i >= len(s.frames) {
 		return nil, io.EOF
